@@ -339,6 +339,23 @@ def concrete_violation(extra_bounds=None):
         q = np.quantile(data, [0.2, 0.5, 0.8])
         if not np.allclose(m.cdf(q), dist.cdf(q, *ref), rtol=1e-9):
             return True, f'{cls.__name__}: cdf is not the cdf of the distribution fit() returned'
+    # scaled / shifted members of the delegated families (fixed seed; the pinned code fits each within KS 0.06):
+    # the fitted CDF must stay close to the empirical CDF of the sample
+    from copulas.univariate import LogLaplace
+    rs2 = np.random.RandomState(7)
+    for nm_, cls_, data_ in (('gamma(2)*50+1000', GammaUnivariate, rs2.gamma(2.0, 1.0, 500) * 50 + 1000),
+                             ('gamma(5)*0.01+10', GammaUnivariate, rs2.gamma(5.0, 1.0, 500) * 0.01 + 10),
+                             ('gamma(3)*2', GammaUnivariate, rs2.gamma(3.0, 2.0, 500)),
+                             ('t(5)*30-200', StudentTUnivariate, rs2.standard_t(5, 500) * 30 - 200),
+                             ('t(8)*0.02+3', StudentTUnivariate, rs2.standard_t(8, 500) * 0.02 + 3),
+                             ('beta(2,5)*400+50', BetaUnivariate, rs2.beta(2, 5, 500) * 400 + 50),
+                             ('beta(3,2)*0.05-1', BetaUnivariate, rs2.beta(3, 2, 500) * 0.05 - 1),
+                             ('loglaplace(3, loc=2, scale=4)', LogLaplace, stats.loglaplace(3.0, loc=2, scale=4).rvs(500, random_state=rs2))):
+        m_ = cls_()
+        m_.fit(data_)
+        ks_ = float(stats.kstest(data_, m_.cdf)[0])
+        if not ks_ <= 0.15:
+            return True, f'{cls_.__name__} fitted on 500 draws of {nm_}: KS distance between the fitted CDF and the sample is {ks_:.3f} (parameters {m_._params})'
     for kw_, lo_w, hi_w in (({'minimum': -4.0}, -4.0, None), ({'maximum': 11.0}, None, 11.0)):
         t1 = TruncatedGaussian(**kw_)
         t1.fit(x)
